@@ -2,16 +2,16 @@
 META = dict(
   level_text='Bounded model checking of the real predicate functions against exact 128-bit integer references, for all inputs in the stated ranges; each obligation is a solver verdict over the whole input space of the harness, not a sample.',
   level_note='Trusted: clang-14/opt-14, the ir2c translator (self-tested every run against the clang-compiled IR), CBMC and the SMT/SAT back ends. Bounds per obligation are in the evidence file.',
-  functions=['Clipper2Lib::Multiply', 'Clipper2Lib::ProductsAreEqual', 'Clipper2Lib::CrossProductSign<long>', 'Clipper2Lib::IsCollinear<long>'],
-  assumptions=['|coordinates| <= 2^62 so coordinate differences do not overflow (as the property states)'],
+  functions=['Clipper2Lib::Multiply', 'Clipper2Lib::ProductsAreEqual', 'Clipper2Lib::CrossProductSign<long> (128-bit and portable branches)', 'Clipper2Lib::IsCollinear<long>', 'Clipper2Lib::CrossProduct<long> (double)', 'Clipper2Lib::GetSegmentIntersectPt<long> (parallelism)'],
+  assumptions=['coordinate differences fit int64 (as the property states); INT64_MIN differences excluded on the portable branch (std::abs is undefined there)', 'trusted identity for the portable-branch obligation: a*b == sgn(a)sgn(b)*(|a|*|b|)'],
   outside=[],
 )
 CP3 = 'double Clipper2Lib::CrossProduct<long>(Clipper2Lib::Point<long> const&, Clipper2Lib::Point<long> const&, Clipper2Lib::Point<long> const&)'
 OBLIGATIONS = [
   O('C18.a-multiply-exact', 'c18_core.cpp', 'harness_multiply', backend='cvc5int', olevel='O1', bound='all 2^128 (a,b)', desc='Multiply == exact 128-bit product', timeout=300),
-  O('C18.b-cps128', 'c18_core.cpp', 'harness_cps128', backend=['cvc5int','z3'], crosscheck=True, bound='all int64 points whose differences fit int64', desc='CrossProductSign == sign of exact 128-bit cross product'),
+  O('C18.b-cps128', 'c18_core.cpp', 'harness_cps128', backend=['cvc5int', 'z3', 'kissat', 'cadical'], timeout=600, bound='all int64 points whose differences fit int64', desc='CrossProductSign == sign of exact 128-bit cross product'),
   O('C18.b-pae128', 'c18_core.cpp', 'harness_pae128', backend=['cvc5int', 'z3', 'kissat', 'cadical'], timeout=600, bound='all int64', desc='ProductsAreEqual exact'),
-  O('C18.b-iscollinear128', 'c18_core.cpp', 'harness_iscollinear128', backend=['cvc5int','z3'], crosscheck=True, bound='all int64 points whose differences fit int64', desc='IsCollinear exact and consistent with CrossProductSign'),
+  O('C18.b-iscollinear128', 'c18_core.cpp', 'harness_iscollinear128', backend=['cvc5int', 'z3', 'kissat', 'cadical'], timeout=600, bound='all int64 points whose differences fit int64', desc='IsCollinear exact and consistent with CrossProductSign'),
   O('C18.c-crossproduct-exact', 'c18_pip.cpp', 'harness_crossproduct_exact', lift=[CP3, 'harness_crossproduct_exact'], backend=['z3', 'cvc5int', 'cadical'],
     bound='|coord|<=2^25', desc='double CrossProduct(p1,p2,p3) == exact integer cross product (exact-double lifting; side conditions |v|<=2^53 asserted)'),
   O('C18.c-pip-3', 'c18_pip.cpp', 'harness_pip', defs=['NV=3'], unwind=8, olevel='INL', replace={CP3: 'stub_cp'},
@@ -24,4 +24,13 @@ OBLIGATIONS += [
     bound='|coord|<=2^40, direction components not all below 2^26', desc='search for "GetSegmentIntersectPt reports parallel although the exact determinant is non-zero" (recorded known finding: products above 2^53 round to the same double)'),
   O('C18.d-parallel-known-hiprec', 'c18_segpt.cpp', 'harness_segpt_parallel', defs=['CLIPPER2_HI_PRECISION=1'], backend=['kissat', 'cadical', 'z3'], timeout=600, tiers='t',
     bound='as above, CLIPPER2_HI_PRECISION variant', desc='same for the high-precision variant'),
+]
+MUL = {'Clipper2Lib::Multiply(unsigned long, unsigned long)$': 'stub_multiply'}
+OBLIGATIONS += [
+  O('C18.b-signed-product-lemma', 'c18_portable.cpp', 'harness_signed_prod_lemma', replace=MUL, backend=['cvc5int', 'z3'], timeout=600, tiers='x',
+    bound='all int64 except INT64_MIN', desc='a*b == sgn(a)sgn(b)*(|a|*|b|) in 128 bits (the shape in which the portable branch and its reference compute products)'),
+  O('C18.b-cps-portable', 'c18_portable.cpp', 'harness_cps_portable', replace=MUL, backend=['cvc5int', 'z3', 'kissat', 'cadical'], timeout=600, tiers='qt',
+    bound='all int64 points whose differences fit int64 (INT64_MIN excluded: std::abs is undefined there)', desc='portable (64x64 Multiply) branch of CrossProductSign == sign of the exact cross product, with Multiply replaced by its C18.a contract and products written as sgn(a)sgn(b)*(|a|*|b|) (that identity is elementary arithmetic; no back end proves it in 600 s, so it is a stated trusted fact)'),
+  O('C18.b-pae-portable', 'c18_portable.cpp', 'harness_pae_portable', replace=MUL, backend=['cvc5int', 'z3'], timeout=600, tiers='x',
+    bound='all int64 except INT64_MIN', desc='portable branch of ProductsAreEqual exact'),
 ]
